@@ -302,3 +302,34 @@ def activation_registers_before_snapshot(ctx):
     """shared with C08.R1: a connection is registered before its snapshot is sent (no update can fall between)"""
     from sa.rules import c08
     c08.register_then_snapshot(ctx)
+
+
+@rule('C05.R2b', min_instances=1)
+def callback_guard_handler_is_total(ctx):
+    """between the cache store and the notification nothing may escape: the handler that guards the parameter callbacks
+    must itself be unable to raise (no attribute access on the callback object, no calls besides logging)"""
+    m = ctx.m
+    f = roles.cache_funnel(m)
+    ctx.analysed(f)
+    n = 0
+    for loop in [x for x in body_walk(f.node) if isinstance(x, ast.For) and 'paramCallbacks' in src(x.iter)]:
+        names = {x.id for x in ast.walk(loop.target) if isinstance(x, ast.Name)}
+        for t in [x for x in walk_local(loop) if isinstance(x, ast.Try)]:
+            for h in t.handlers:
+                n += 1
+                risky = []
+                for st in h.body:
+                    for x in walk_local(st):
+                        if isinstance(x, ast.Attribute) and isinstance(x.value, ast.Name) and x.value.id in names:
+                            risky.append(x)
+                        if isinstance(x, ast.Call) and not (isinstance(x.func, ast.Attribute) and src(x.func.value).endswith('log')):
+                            risky.append(x)
+                        if isinstance(x, ast.Raise):
+                            risky.append(x)
+                ctx.check(not risky, f'{f.qualname}:callback guard handler is total', h, 'the handler can not raise',
+                          f'the handler guarding the parameter callbacks evaluates `{src(risky[0]) if risky else ""}`, which can raise (e.g. a '
+                          'functools.partial has no __name__): the exception escapes announceUpdate after the cache was changed and before the '
+                          'dispatcher was notified - the update is lost and repeated errors are then suppressed', f)
+    if not n:
+        ctx.bad(f'{f.qualname}:callback guard handler is total', f.node, 'the parameter callbacks are not guarded by a try/except: a failing '
+                'callback prevents the notification of the dispatcher', f)
